@@ -72,7 +72,7 @@ def _cases(draw):
         "est_off": draw(st.sampled_from([0.0, 0.0, 1.0, 30.0, 400.0])), "est_dir": [draw(st.floats(-1, 1)) for _ in range(3)],
         "bg": [{"daz": draw(st.floats(-3, 3)), "del": draw(st.floats(-3, 3)), "rho": draw(st.floats(0.5, 1.5))} for _ in range(draw(st.integers(0, 3)))],
         "tx_power": draw(st.sampled_from([2.5e6, 6e4, 1e3])), "vcs": draw(st.sampled_from([1.0, 10.0, 100.0])), "vismag": draw(st.sampled_from([25.0, 14.0, 8.0])),
-        "noise": draw(st.booleans()),
+        "noise": draw(st.booleans()), "corr": draw(st.sampled_from([0.0, 0.0, 0.6, -0.8])),
     }
     return case
 
@@ -296,6 +296,16 @@ def collect(c, rec):
                    "background_observations": True, "maximum_range": c["max_range"] if c["max_range"] is not None else float("inf")}
     if c["min_range"] is not None:
         sensor_over["minimum_range"] = c["min_range"]
+    if c.get("corr"):
+        # correlated measurement noise (any symmetric positive definite covariance is accepted by the configuration): correlation
+        # c["corr"] between the first two components and between azimuth and the last one
+        base_cov = np.array(kit.OPT_COV if c["kind"] == "optical" else (kit.ADV_COV if c["kind"] == "adv_radar" else kit.RADAR_COV), dtype=float)
+        sd = np.sqrt(np.diag(base_cov))
+        corr = np.eye(len(sd))
+        corr[0, 1] = corr[1, 0] = c["corr"]
+        corr[0, -1] = corr[-1, 0] = c["corr"] * (0.5 if len(sd) > 2 else 1.0)
+        sensor_over["covariance"] = (corr * np.outer(sd, sd)).tolist()
+        rec.label("correlated_noise")
     if c["kind"] == "optical":
         sensor_over["detectable_vismag"] = c["vismag"]
     else:
@@ -350,6 +360,22 @@ def collect(c, rec):
 
     point = m @ (eci2ecef(est, when)[:3] - s_ecef[:3])
     slew_budget = math.radians(c["slew"]) * (float(agent.time) - tlt_prev)
+    if c.get("corr") and c["noise"]:
+        # "within the sensor's stated noise": the noise the sensor draws has the stated covariance, correlations included.
+        # 4000 draws of the sensor's own noise, whitened with the Cholesky factor of the stated R, must have unit covariance
+        # (sampling error of an entry ~ sqrt(2/4000) = 0.022; a factor that reproduces another matrix is off by >= 0.3)
+        r_stated = np.asarray(sensor.r_matrix, dtype=float)
+        state = np.random.get_state()
+        np.random.seed(12345)
+        try:
+            draws = np.array([np.asarray(sensor.measurement.noise, dtype=float).ravel() for _ in range(4000)])
+        finally:
+            np.random.set_state(state)
+        white = np.linalg.solve(np.linalg.cholesky(r_stated), draws.T)
+        dev = float(np.abs(white @ white.T / draws.shape[0] - np.eye(r_stated.shape[0])).max())
+        rec.err("whitened_noise_covariance_dev", dev)
+        if dev > 0.15:
+            raise Violation("noise_covariance", f"4000 noise draws of the sensor, whitened with its stated covariance {r_stated.tolist()}, have covariance {dev:.2f} away from the identity")
     obs_list, miss_list, bore_now, tlt_now = sensor.collectObservations(est, primary, background)
     refl = primary.reflectivity
     # ---- oracle -------------------------------------------------------------------------------------
